@@ -150,7 +150,8 @@ def invalid_schema(d, k, kind):
 
 def conditions(tier, seed, active):
     quick = tier == "quick"
-    out = tp.gen_conditions(__name__, "single", tier, seed, rate={"T1": 0.35, "T2": 0.5, "T3": 0.08}, pairs_quick=10, rest=not quick)
+    out = tp.gen_conditions(__name__, "single", tier, seed, rate={"T1": 0.35, "T2": 0.5, "T3": 0.08}, pairs_quick=8, rest=not quick,
+                            heavy_quick=False)
     rng = random.Random(seed + 1)
     fcs = tp.gen_conditions(__name__, "single", tier, seed + 7, groups=("T2",), rate={"T2": 0.15 if quick else 1.0}, rest=False,
                             extra_params={"fc": True})
@@ -161,7 +162,7 @@ def conditions(tier, seed, active):
         for k in cand.keywords(d):
             kinds = cand.kinds_for(k)
             if quick:
-                kinds = rng.sample(kinds, 2)
+                kinds = rng.sample(cand.BASE_KINDS, 2)
             for kind in kinds:
                 out.append(dict(id="invalid-schema/%s/%s/d%d" % (k, kind, d), module=__name__, factory="invalid_schema",
                                 params=dict(d=d, k=k, kind=kind), timeout=900, tags=[], witness=[]))
